@@ -22,8 +22,9 @@ def splitContours : List Op → List Op → List (List Op)
 def opPts : Op → List P
   | .moveTo p => [p] | .lineTo p => [p] | .curveTo a b c => [a, b, c] | .closePath => []
 
-/-- direction-blind key of one drawn contour: the sorted multiset of its on- and off-curve coordinates -/
-def opsKey (ops : List Op) : List P := (ops.flatMap opPts).mergeSort ptLe
+/-- direction-blind key of one drawn contour: the sorted SET of its on- and off-curve coordinates (which end of the closing
+    segment is spelled out depends on the direction, so multiplicities are not compared) -/
+def opsKey (ops : List Op) : List P := ((ops.flatMap opPts).mergeSort ptLe).eraseDups
 
 /-- `ordered = true`: same contours in the same order (nothing lost, duplicated or reordered);
     `ordered = false` (a skip-export list spliced components in): the same multiset of contours -/
